@@ -186,3 +186,23 @@ def mir_success_dominates(rule, F, fn, call_pat, label, targets="ok", key_extra=
         rule.fail((fn, "ok-not-dominated-by", label) + tuple(key_extra),
                   "%s: an Ok return is reachable on a path that does not pass the success edge of `%s` (calls found: %d)" % (short(fn), label, ncalls))
     return ok
+
+
+IO_WRITE = re.compile(r"(^std::io::Write::write$|as std::io::Write>::write$)")
+
+
+def short_write_sites(body):
+    """Calls of `io::Write::write` (which may write fewer bytes than given) whose returned count is never inspected:
+    [(block, terminator)].  `write_all` is the total variant."""
+    out = []
+    for bi, t in body.calls(IO_WRITE):
+        tainted = body.taint_forward({M.place_local(t["dst"])}, extra_through=re.compile(r"::(unwrap|expect|unwrap_or|unwrap_or_default)$"))
+        used = False
+        for b in body.blocks:
+            for s in b["s"]:
+                if s["k"] == "assign" and s["rv"]["k"] == "binop":
+                    if any(M.op_local(o) in tainted for o in (s["rv"]["a"], s["rv"]["b"]) if M.op_local(o) is not None):
+                        used = True
+        if not used:
+            out.append((bi, t))
+    return out
